@@ -3,6 +3,7 @@ package main
 // Go type -> SMT sort mapping, zero values, field heaps.
 
 import (
+	"hash/fnv"
 	"fmt"
 	"go/types"
 	"strings"
@@ -32,6 +33,61 @@ func qual(p *types.Package) string {
 }
 
 func typeKey(t types.Type) string { return types.TypeString(t, qual) }
+
+// canonType: alias-free structural name of a type; contains "?" when a type
+// parameter occurs.
+func canonType(t types.Type) string {
+	t = unalias(t)
+	switch x := t.(type) {
+	case *types.Named:
+		s := x.Obj().Name()
+		if x.Obj().Pkg() != nil {
+			s = x.Obj().Pkg().Path() + "." + s
+		}
+		if ta := x.TypeArgs(); ta != nil && ta.Len() > 0 {
+			s += "["
+			for i := 0; i < ta.Len(); i++ {
+				s += canonType(ta.At(i)) + ","
+			}
+			s += "]"
+		}
+		return s
+	case *types.Pointer:
+		return "*" + canonType(x.Elem())
+	case *types.Slice:
+		return "[]" + canonType(x.Elem())
+	case *types.Array:
+		return fmt.Sprintf("[%d]%s", x.Len(), canonType(x.Elem()))
+	case *types.Map:
+		return "map[" + canonType(x.Key()) + "]" + canonType(x.Elem())
+	case *types.Chan:
+		return "chan " + canonType(x.Elem())
+	case *types.TypeParam:
+		return "?"
+	case *types.Struct:
+		s := "struct{"
+		for i := 0; i < x.NumFields(); i++ {
+			s += x.Field(i).Name() + " " + canonType(x.Field(i).Type()) + ";"
+		}
+		return s + "}"
+	}
+	return types.TypeString(t, qual)
+}
+
+// mapHeapBase names the heaps of a Go map type. Maps of different Go types
+// can never alias (map types convert only between identical underlying
+// types), so the heaps are partitioned by key and element TYPE, not sort.
+func (tm *TypeMap) mapHeapBase(mt *types.Map) string {
+	ks, vs := tm.SortOf(mt.Key()), tm.SortOf(mt.Elem())
+	base := "M." + sanitize(ks) + "." + sanitize(vs)
+	ct := canonType(mt)
+	if strings.Contains(ct, "?") {
+		return base
+	}
+	h := fnv.New32a()
+	h.Write([]byte(ct))
+	return fmt.Sprintf("%s.t%08x", base, h.Sum32())
+}
 
 func shortTypeName(t types.Type) string {
 	s := types.TypeString(t, func(p *types.Package) string {
